@@ -1502,6 +1502,10 @@ class Node:
         # persist its hop-by-hop IDs over reconnect.
         if conn.ident in self._peer_waiting_answer:
             del self._peer_waiting_answer[conn.ident]
+        # Requests received through this connection can no longer be answered
+        for message_id in list(self._origin_waiting_answer):
+            if message_id.startswith(f"{conn.ident}:"):
+                self._origin_waiting_answer.pop(message_id, None)
 
         # Check if this was the last available peer for an app and clear app
         # ready flag if so, resulting in `wait_for_ready` to block again.
